@@ -557,6 +557,22 @@ def check_select(ctx, P, backend):
     tab = [r for r in rows if r[0] is not None]
     ok = len(tab) == 8
     babs = None
+    if len(tab) == 1:
+        # loop form: `for k in 0..8 { t.maybe_set(&GE_BASE[pos][k], |b|.ct_eq(k + 1)) }` — one call in the body of a full
+        # range loop, column = the loop variable, selector = ct_eq(|b|, loop variable + 1)
+        lps = [l for l in rules.iter_loops(fn) if l["sources"] == [("range", ("0", "8"))] and not l["early_exits"]]
+        c0 = [c for c in ms if fn.expr(c.args[1]) is not None and c.bb in fn.loop_blocks()]
+        if len(lps) == 1 and len(c0) == 1 and c0[0].bb in lps[0]["body"]:
+            idx, sel = tab[0]
+            colx = None
+            for x in walk(fn.expr(c0[0].args[1])):
+                if x[0] == "index" and x[1][0] == "index":
+                    colx = pred.short(x[2], fn)
+            m_ = re.match(r"^CtEqual::ct_eq\((.+),lin\{\+1\*(.+)\+1\}\)$", sel)
+            if m_ and idx[0] == "arg1" and colx is not None and re.sub(r"^\(|\ as usize\)$| as usize$", "", colx.replace("(", "").replace(")", "")) == m_.group(2).replace("(", "").replace(")", "") and "Range::next" in m_.group(2):
+                babs = m_.group(1)
+                tab = [(("arg1", k, idx[2]), "CtEqual::ct_eq(%s,%d)" % (babs, k + 1)) for k in range(8)]
+                ok = True
     for k, (idx, sel) in enumerate(tab):
         m_ = re.match(r"^CtEqual::ct_eq\((.+),(\d+)\)$", sel)
         if not m_ or idx[0] != "arg1" or idx[1] != k or int(m_.group(2)) != k + 1:
